@@ -64,3 +64,6 @@ Example C07_example :
   restored (read_into_table 1200 (table_stream (fun _ => 270) [([1], [10]); ([2], [20]); ([3], [30])] (Some 7))) =
   ([([1], [10]); ([2], [20]); ([3], [30])], 7).
 Proof. vm_compute. reflexivity. Qed.
+
+(* every remaining property theorem of this file *)
+Print Assumptions C07_restore_succeeds_iff_all_match.
